@@ -263,11 +263,11 @@ func DecodePDUSessionNASPDU(PDUSessionNASPDU []byte) net.IP {
 	plainNAS5GSMessage := PDUSessionNASPDU[7:]
 
 	payloadContainerLength := binary.BigEndian.Uint16(plainNAS5GSMessage[4:6])
-	payloadContainerPlainNAS5GSMessage := plainNAS5GSMessage[6 : 6+payloadContainerLength]
+	payloadContainerPlainNAS5GSMessage := plainNAS5GSMessage[6 : 6+int(payloadContainerLength)]
 
 	QoSRulesLength := binary.BigEndian.Uint16(payloadContainerPlainNAS5GSMessage[5:7])
 
-	opElements := payloadContainerPlainNAS5GSMessage[5+2+QoSRulesLength+7:]
+	opElements := payloadContainerPlainNAS5GSMessage[5+2+int(QoSRulesLength)+7:]
 	length := len(opElements)
 	index := 0
 	var opElementID byte
